@@ -229,6 +229,54 @@ def net_cfg(name, byz=(2,), h=2, maxview=1, amev=False, dev=True, weaken=(), inv
            % (n, h, maxview, ', '.join(str(x) for x in byz), b(amev), b(dev), ', '.join('"%s"' % w for w in weaken), maxsteps, ' '.join(invs)))
     return dict(name=name, module='MC_Net', cfg=txt)
 
+ABS_CFGS = {'quick': [('{0, 1, 2, 3}', '{3}'), ('{0, 1, 2, 3, 4}', '{1}'), ('{0, 1, 2}', '{}'), ('{0}', '{}')],
+            'thorough': [('{0, 1, 2, 3}', '{3}'), ('{0, 1, 2, 3, 4}', '{1}'), ('{0, 1, 2, 3, 4, 5}', '{0}'), ('{0, 1, 2, 3, 4, 5, 6}', '{5, 6}'), ('{0, 1, 2}', '{}'), ('{0}', '{}')]}
+
+def agreement_abs(tier, wd):
+    """C01 by composition: spec/AgreementAbs.tla (the abstract commit/accept protocol made of the two node-local guarantees
+    OneCommit and Certificate) is model-checked by TLC for small constants, its weakened variants must fork (both guarantees
+    are needed), and spec/AgreementProof.tla proves Spec => []Agreement for every validator count with the TLA+ proof system."""
+    import re as _re
+    sd = os.path.join(wd, 'abs'); os.makedirs(sd, exist_ok=True)
+    for f in ('AgreementAbs.tla', 'AgreementProof.tla'):
+        shutil.copy(os.path.join(vlib.VERIF, 'spec', f), sd)
+    out = []
+    def tlc(val, byz, weak, views='{0, 1}'):
+        cfg = ('SPECIFICATION Spec\nCONSTANTS\n Val = %s\n Byz = %s\n View = %s\n Block = {"a", "b"}\n Weak = "%s"\nINVARIANTS Inv Agreement\nCHECK_DEADLOCK FALSE\n'
+               % (val, byz, views, weak))
+        if weak != 'none':
+            cfg = cfg.replace('INVARIANTS Inv Agreement', 'INVARIANTS Agreement')
+        name = 'abs-%s-%s-%s' % (val.count(',') + 1, byz.replace(' ', ''), weak)
+        open(os.path.join(sd, name + '.cfg'), 'w').write(cfg)
+        t0 = time.time()
+        r = subprocess.run(['java', '-Xmx4g', '-XX:+UseParallelGC', '-cp', vlib.JAVA_CP, 'tlc2.TLC', '-workers', '4', '-metadir', os.path.join(sd, 'md-' + name),
+                            '-config', name + '.cfg', 'AgreementAbs.tla'], cwd=sd, stdout=subprocess.PIPE, stderr=subprocess.STDOUT, text=True, timeout=900)
+        mm = _re.findall(r'(\d[\d,]*) states generated, (\d[\d,]*) distinct states found', r.stdout)
+        res = dict(name=name, module='AgreementAbs', constants=dict(Val=val, Byz=byz, View=views, Weak=weak), wall_s=round(time.time() - t0, 1),
+                   generated=int(mm[-1][0].replace(',', '')) if mm else 0, distinct=int(mm[-1][1].replace(',', '')) if mm else 0,
+                   completed='Model checking completed. No error has been found.' in r.stdout,
+                   violated=(_re.search(r'Invariant (\w+) is violated', r.stdout) or [None, None])[1], depth=0, timed_out=False)
+        if weak == 'none' and not res['completed'] and not res['violated']:
+            raise Infra('TLC failed on AgreementAbs:\n' + r.stdout[-1500:])
+        return res
+    for val, byz in ABS_CFGS['quick' if tier == 'quick' else 'thorough']:
+        out.append(tlc(val, byz, 'none'))
+    for weak in ('two_commits', 'M_minus_1'):     # necessity: without either guarantee the abstract protocol forks
+        r = tlc('{0, 1, 2, 3}', '{3}', weak)
+        r['expected_to_fork'] = True
+        out.append(r)
+    try:
+        t0 = time.time()
+        r = vlib.sh(['tlapm', '--threads', '8', 'AgreementProof.tla'], cwd=sd, timeout=600)
+        m = _re.search(r'All (\d+) obligations? proved', r.stdout)
+        out.append(dict(name='abs-proof', module='AgreementProof (TLAPS)', proved=bool(m), obligations=int(m.group(1)) if m else 0,
+                        theorem='Spec => []Agreement for every finite Val, Byz with |Byz| <= F, View, Block', wall_s=round(time.time() - t0, 1),
+                        generated=0, distinct=0, completed=bool(m), violated=None, note='' if m else r.stdout[-600:]))
+    except (subprocess.TimeoutExpired, FileNotFoundError) as e:
+        out.append(dict(name='abs-proof', module='AgreementProof (TLAPS)', proved=False, generated=0, distinct=0, completed=False, violated=None, note='tlapm not run: %s' % e))
+    shutil.rmtree(sd, ignore_errors=True)
+    return out
+
 def design_net(tier, wd, vh, seed=1):
     """Closed model (C01): random simulation of spec/MC_Net.tla. The faithful model with the KF-1 deviation switched on must
     exhibit the known fork (and it is executed on real nodes); with the deviation switched off no fork may be found."""
@@ -254,7 +302,7 @@ def design_net(tier, wd, vh, seed=1):
             viols, bf, tf = replay_schedule(r['schedule'], vh, wd, r['name'])
             r['replayed_on_real_code'] = {'real_formula_failures': sorted({(v['prop'], v['formula'], v['tag']) for v in viols}), 'behaviour': bf, 'trace': tf}
         r.pop('schedule', None)
-    return res
+    return res + agreement_abs(tier, wd)
 
 GEN_DIRS = [os.path.join(vlib.VERIF, 'generated'), os.path.join(vlib.VERIF, '.cache', 'generated')]
 
